@@ -6,6 +6,10 @@
 #include "transposition_table.h"
 #include "chessplusplusConfig.h"
 
+#ifdef CHESSPP_VERIF
+#include "verif_hooks.h"
+#endif
+
 namespace engine
 {
 Uci::Uci() : search(nullptr), position(), quit(false), options(), polyglot(), polyglot_sample_random_move(true)
@@ -243,6 +247,9 @@ bool Uci::moves_command(std::istringstream& istream)
 
 void start_searching(Uci* uci)
 {
+#ifdef CHESSPP_VERIF
+    verif::at(verif::THREAD_START, uci->search.get());
+#endif
     uint64_t key = PolyglotBook::hash(uci->position);
     if (uci->polyglot.contains(key))
     {
